@@ -38,7 +38,8 @@ def sim_bounds(entry, c, tier):
         c['max_expo'] = e + 1
         c['tmax'] = 'inf'
     if entry == 'fast_SIS':
-        c['max_expo'] = 2 * e - 1
+        # (K2 is cheap: enough draws for "scheduled while the target is infected, postponed past its recovery, source recovers first")
+        c['max_expo'] = 2 * e + 1 if c['graph'] == 'K2' else 2 * e - 1
         c['tmax'] = 'sym'
     if entry == 'fast_nonMarkov_SIS':
         # 4 infections only on <= 3 nodes from <= 2 initial nodes (path cap otherwise)
